@@ -1,11 +1,17 @@
 (* C29 — Chain-history search reports exactly the state changes.
    Model: Client/Search.v (mirrors find_state_change_intervals, find_state_change,
    walk_state_change_interval, find_state_changes of src/pytezos/rpc/search.py).
-   The node is an arbitrary function [get : Z -> V]; [eqb] is the user's `equals`, assumed to
-   decide equality.  [no_return get lo hi]: inside [lo, hi] a value never comes back
-   (get a = get c with a < b < c forces get b = get a).
-   Specification (Proofs/Search_proofs.v): [changes eqb get lo hi] = the pairs (l, get l) for the
-   levels l of (lo, hi] with get l <> get (l-1), lowest level first (C29_changes_spec).
+   The node is an arbitrary function [get : Z -> V]; [eqb] is the user's `equals`.
+   The search looks at values only through `equals`, so the main theorems assume just that [eqb] is
+   (the boolean of) an EQUIVALENCE relation on values (reflexive, symmetric, transitive) - e.g. "the
+   relevant field of two dict values is the same" - and everything is stated modulo it:
+     [no_return eqb get lo hi]: inside [lo, hi] a value never comes back
+        (eqb (get a) (get c) = true with a < b < c forces eqb (get b) (get a) = true);
+     [changes eqb get lo hi] = the pairs (l, get l) for the levels l of (lo, hi] with
+        eqb (get l) (get (l-1)) = false, lowest level first (C29_changes_spec).
+   The value reported for a level is the value found there (get l), not a representative.
+   The *_for_equality corollaries restate everything with = and <> for an `equals` that decides
+   equality (what the callers in pytezos pass).
    [None] is the model's out-of-fuel result (Python: unbounded recursion / loop); every theorem
    below shows the result is [Some _], i.e. the fuel Z.to_nat (head - last) always suffices. *)
 From Coq Require Import List ZArith Bool Sorted.
@@ -13,59 +19,114 @@ From PV Require Import Client.Search Proofs.Search_proofs.
 Import ListNotations.
 Local Open Scope Z_scope.
 
-(* what the specification list is: exactly the change points of (lo, hi], each with its new
-   value, in strictly increasing level order (hence no duplicates, nothing else) *)
-Theorem C29_changes_spec : forall (V : Type) (eqb : V -> V -> bool),
-  (forall a b, eqb a b = true <-> a = b) ->
+Definition equivalence {V} (eqb : V -> V -> bool) : Prop :=
+  (forall a, eqb a a = true) /\ (forall a b, eqb a b = true -> eqb b a = true) /\
+  (forall a b c, eqb a b = true -> eqb b c = true -> eqb a c = true).
+
+(* what the specification list is: exactly the change points of (lo, hi] (w.r.t. equals), each
+   with the value found there, in strictly increasing level order (no duplicates, nothing else) *)
+Theorem C29_changes_spec : forall (V : Type) (eqb : V -> V -> bool), equivalence eqb ->
   forall (get : Z -> V) (lo hi : Z), lo <= hi ->
-  (forall l v, In (l, v) (changes eqb get lo hi) <-> lo < l <= hi /\ v = get l /\ get l <> get (l - 1)) /\
+  (forall l v, In (l, v) (changes eqb get lo hi) <-> lo < l <= hi /\ v = get l /\ eqb (get l) (get (l - 1)) = false) /\
   StronglySorted Z.lt (map fst (changes eqb get lo hi)).
 Proof.
-  intros V eqb Hspec get lo hi Hle. split.
+  intros V eqb (Hr & Hs & Ht) get lo hi Hle. split.
   - intros l v. now apply changes_in.
   - now apply changes_sorted.
 Qed.
 Print Assumptions C29_changes_spec.
 
-(* the range search: for every history without returning values, every range last <= head and
-   every sampling step >= 1, the reported list is exactly the list of state changes *)
-Theorem C29_changes_exact : forall (V : Type) (eqb : V -> V -> bool),
-  (forall a b, eqb a b = true <-> a = b) ->
+(* the range search: for every equivalence `equals`, every history without returning values
+   (modulo equals), every range last <= head and every sampling step >= 1, the reported list is
+   exactly the list of state changes *)
+Theorem C29_changes_exact : forall (V : Type) (eqb : V -> V -> bool), equivalence eqb ->
   forall (get : Z -> V) (head last step : Z),
-  1 <= step -> last <= head -> no_return get last head ->
+  1 <= step -> last <= head -> no_return eqb get last head ->
   find_state_changes eqb get head last step = Some (changes eqb get last head).
-Proof. exact @find_state_changes_exact. Qed.
+Proof. intros V eqb (Hr & Hs & Ht). now apply find_state_changes_exact. Qed.
 Print Assumptions C29_changes_exact.
 
-(* the single-change search returns the FIRST level after the start whose value differs from
-   the start value (= pred_value), with the value found there *)
-Theorem C29_bisect_first_change : forall (V : Type) (eqb : V -> V -> bool),
-  (forall a b, eqb a b = true <-> a = b) ->
+(* the single-change search returns the FIRST level after the start whose value is not
+   equivalent to pred_value (= the start value up to equals), with the value found there *)
+Theorem C29_bisect_first_change : forall (V : Type) (eqb : V -> V -> bool), equivalence eqb ->
   forall (get : Z -> V) (pred : V) (start end_ : Z),
-  start < end_ -> get start = pred -> get end_ <> pred -> no_return get start end_ ->
+  start < end_ -> eqb (get start) pred = true -> eqb (get end_) pred = false -> no_return eqb get start end_ ->
   exists l, find_state_change eqb get end_ start pred = Some (l, get l) /\
-            start < l <= end_ /\ get l <> pred /\ forall m, start <= m < l -> get m = pred.
-Proof. exact @find_state_change_first. Qed.
+            start < l <= end_ /\ eqb (get l) pred = false /\ forall m, start <= m < l -> eqb (get m) pred = true.
+Proof. intros V eqb (Hr & Hs & Ht). now apply find_state_change_first. Qed.
 Print Assumptions C29_bisect_first_change.
 
 (* without any hypothesis on the history bisection still terminates within its fuel and returns
-   a genuine change point: the value below it is pred_value, the value at it is not *)
-Theorem C29_bisect_finds_a_change : forall (V : Type) (eqb : V -> V -> bool),
+   a genuine change point: the value below it is equivalent to pred_value, the value at it is not *)
+Theorem C29_bisect_finds_a_change : forall (V : Type) (eqb : V -> V -> bool), equivalence eqb ->
+  forall (get : Z -> V) (pred : V) (start end_ : Z),
+  start < end_ -> eqb (get start) pred = true -> eqb (get end_) pred = false ->
+  exists l, find_state_change eqb get end_ start pred = Some (l, get l) /\
+            start < l <= end_ /\ eqb (get (l - 1)) pred = true /\ eqb (get l) pred = false.
+Proof. intros V eqb (Hr & Hs & Ht). now apply find_state_change_a_change. Qed.
+Print Assumptions C29_bisect_finds_a_change.
+
+(* walking one interval; the head value handed over need only be equivalent to get hi (the
+   interval finder hands over the value of an earlier sample) *)
+Theorem C29_walk_interval_exact : forall (V : Type) (eqb : V -> V -> bool), equivalence eqb ->
+  forall (get : Z -> V) (lo hi : Z) (hv : V), eqb hv (get hi) = true -> lo <= hi -> no_return eqb get lo hi ->
+  walk_state_change_interval eqb get hi lo hv (get lo) = Some (changes eqb get lo hi).
+Proof. intros V eqb (Hr & Hs & Ht). now apply walk_interval_correct. Qed.
+Print Assumptions C29_walk_interval_exact.
+
+(* "and nothing else", unconditionally: for EVERY history (values may come back) the search
+   terminates within its fuel, every reported pair is a genuine change point of (last, head]
+   carrying the value found there, and levels strictly increase; only completeness (each
+   change is reported) needs the no-return hypothesis, see C29_no_return_needed below *)
+Theorem C29_reported_are_changes : forall (V : Type) (eqb : V -> V -> bool), equivalence eqb ->
+  forall (get : Z -> V) (head last step : Z), 1 <= step -> last <= head ->
+  exists r, find_state_changes eqb get head last step = Some r /\
+            (forall l v, In (l, v) r -> last < l <= head /\ v = get l /\ eqb (get l) (get (l - 1)) = false) /\
+            StronglySorted Z.lt (map fst r).
+Proof. intros V eqb (Hr & Hs & Ht). now apply find_state_changes_sound. Qed.
+Print Assumptions C29_reported_are_changes.
+
+(* ---- corollaries for an `equals` that decides equality, stated with = and <> ---- *)
+Corollary C29_changes_exact_for_equality : forall (V : Type) (eqb : V -> V -> bool),
+  (forall a b, eqb a b = true <-> a = b) ->
+  forall (get : Z -> V) (head last step : Z),
+  1 <= step -> last <= head -> no_return_eq get last head ->
+  find_state_changes eqb get head last step = Some (changes eqb get last head) /\
+  (forall l v, In (l, v) (changes eqb get last head) <-> last < l <= head /\ v = get l /\ get l <> get (l - 1)) /\
+  StronglySorted Z.lt (map fst (changes eqb get last head)).
+Proof.
+  intros V eqb Hspec get head last step Hs Hle Hnr. split; [now apply find_state_changes_exact_eq|].
+  split; [intros l v; now apply changes_in_eq|].
+  exact (changes_sorted eqb (eq_refl' eqb Hspec) (eq_sym' eqb Hspec) (eq_trans' eqb Hspec) get last head).
+Qed.
+Print Assumptions C29_changes_exact_for_equality.
+
+Corollary C29_bisect_first_change_for_equality : forall (V : Type) (eqb : V -> V -> bool),
+  (forall a b, eqb a b = true <-> a = b) ->
+  forall (get : Z -> V) (pred : V) (start end_ : Z),
+  start < end_ -> get start = pred -> get end_ <> pred -> no_return_eq get start end_ ->
+  exists l, find_state_change eqb get end_ start pred = Some (l, get l) /\
+            start < l <= end_ /\ get l <> pred /\ forall m, start <= m < l -> get m = pred.
+Proof. exact @find_state_change_first_eq. Qed.
+Print Assumptions C29_bisect_first_change_for_equality.
+
+Corollary C29_bisect_finds_a_change_for_equality : forall (V : Type) (eqb : V -> V -> bool),
   (forall a b, eqb a b = true <-> a = b) ->
   forall (get : Z -> V) (pred : V) (start end_ : Z),
   start < end_ -> get start = pred -> get end_ <> pred ->
   exists l, find_state_change eqb get end_ start pred = Some (l, get l) /\
             start < l <= end_ /\ get (l - 1) = pred /\ get l <> pred.
-Proof. exact @find_state_change_a_change. Qed.
-Print Assumptions C29_bisect_finds_a_change.
+Proof. exact @find_state_change_a_change_eq. Qed.
+Print Assumptions C29_bisect_finds_a_change_for_equality.
 
-(* walking one interval whose end values are the history's values *)
-Theorem C29_walk_interval_exact : forall (V : Type) (eqb : V -> V -> bool),
+Corollary C29_reported_are_changes_for_equality : forall (V : Type) (eqb : V -> V -> bool),
   (forall a b, eqb a b = true <-> a = b) ->
-  forall (get : Z -> V) (lo hi : Z), lo <= hi -> no_return get lo hi ->
-  walk_state_change_interval eqb get hi lo (get hi) (get lo) = Some (changes eqb get lo hi).
-Proof. exact @walk_interval_correct. Qed.
-Print Assumptions C29_walk_interval_exact.
+  forall (get : Z -> V) (head last step : Z), 1 <= step -> last <= head ->
+  exists r, find_state_changes eqb get head last step = Some r /\
+            (forall l v, In (l, v) r -> last < l <= head /\ v = get l /\ get l <> get (l - 1)) /\
+            StronglySorted Z.lt (map fst r).
+Proof. exact @find_state_changes_sound_eq. Qed.
+Print Assumptions C29_reported_are_changes_for_equality.
 
 (* the sampled levels: strictly descending from below head down to last itself (the partial
    lowest step is searched), every head - k*step above last is among them, and the fuel of
@@ -95,19 +156,6 @@ Proof.
 Qed.
 Print Assumptions C29_sampled_levels.
 
-(* "and nothing else", unconditionally: for EVERY history (values may come back) the search
-   terminates within its fuel, every reported pair is a genuine change point of (last, head]
-   carrying the value found there, and levels strictly increase; only completeness (each
-   change is reported) needs the no-return hypothesis, see C29_no_return_needed below *)
-Theorem C29_reported_are_changes : forall (V : Type) (eqb : V -> V -> bool),
-  (forall a b, eqb a b = true <-> a = b) ->
-  forall (get : Z -> V) (head last step : Z), 1 <= step -> last <= head ->
-  exists r, find_state_changes eqb get head last step = Some r /\
-            (forall l v, In (l, v) r -> last < l <= head /\ v = get l /\ get l <> get (l - 1)) /\
-            StronglySorted Z.lt (map fst r).
-Proof. exact @find_state_changes_sound. Qed.
-Print Assumptions C29_reported_are_changes.
-
 (* ---- non-vacuity: a history with three change points, one at last+1, two adjacent, one at head ---- *)
 Definition ex_get : Z -> Z := pw 7 [(101, 8); (130, 9); (131, 10); (160, 11)].
 
@@ -120,7 +168,7 @@ Proof. vm_compute. repeat split. Qed.
 (* the hypotheses of C29_changes_exact are satisfiable: Z.eqb decides equality, and a strictly
    increasing history never returns to a value *)
 Example C29_hypotheses_satisfiable :
-  (forall a b, Z.eqb a b = true <-> a = b) /\ no_return (fun x : Z => x / 10) 0 1000.
+  (forall a b, Z.eqb a b = true <-> a = b) /\ no_return_eq (fun x : Z => x / 10) 0 1000.
 Proof.
   split; [exact Z.eqb_eq|].
   intros a b c Ha Hab Hbc Hc E.
@@ -135,3 +183,17 @@ Example C29_no_return_needed :
   let g := pw 1 [(110, 2); (120, 1)] in
   find_state_changes Z.eqb g 160 100 60 = Some [] /\ changes Z.eqb g 100 160 = [(110, 2); (120, 1)].
 Proof. vm_compute. split; reflexivity. Qed.
+
+(* an `equals` coarser than equality is an equivalence, and the search run with it reports the
+   changes of the compared field while the ignored field (level mod 3) drifts *)
+Example C29_coarse_equals :
+  equivalence fst_eqb /\
+  find_state_changes fst_eqb (pw2 7 [(101, 8); (130, 9)] 3) 160 100 25 = Some [(101, (8, 2)); (130, (9, 1))].
+Proof.
+  split.
+  - unfold equivalence, fst_eqb. repeat split.
+    + intros a. apply Z.eqb_refl.
+    + intros a b H. apply Z.eqb_eq in H. apply Z.eqb_eq. now symmetry.
+    + intros a b c H1 H2. apply Z.eqb_eq in H1. apply Z.eqb_eq in H2. apply Z.eqb_eq. congruence.
+  - vm_compute. reflexivity.
+Qed.
